@@ -192,6 +192,8 @@ class Alias:
         if short in COPY_FALSE_FUNCS and c.args:
             cp = kw.get("copy")
             if isinstance(cp, ast.Constant) and cp.value is False: return s.al(c.args[0], env)
+            if cp is not None and not (isinstance(cp, ast.Constant) and cp.value is True):
+                return s.al(c.args[0], env) | {FRESH}          # copy=<expression>: may work in place
             return {FRESH}
         if short == "dict" and c.args:
             return {("shallow:" + b) if b != FRESH else FRESH for b in s.al(c.args[0], env)}
@@ -268,6 +270,9 @@ class Alias:
             cp = kw.get("copy")
             if short in ("nan_to_num",) and isinstance(cp, ast.Constant) and cp.value is False and c.args:
                 s.sinks.append(Sink(c, "copy=False", ast.unparse(c.args[0]), s.al(c.args[0], env), ast.unparse(c)[:80]))
+            elif short in ("nan_to_num",) and cp is not None and not isinstance(cp, ast.Constant) and c.args:
+                # copy=<run-time expression>: in place whenever it evaluates to False - e.g. an identity test `a is x` is False for a view of x
+                s.sinks.append(Sink(c, f"copy={ast.unparse(cp)}", ast.unparse(c.args[0]), s.al(c.args[0], env), ast.unparse(c)[:80]))
             if isinstance(c.func, ast.Attribute) and c.func.attr in INPLACE_METHODS:
                 s.sinks.append(Sink(c, "." + c.func.attr + "()", ast.unparse(c.func.value), s.al(c.func.value, env), ast.unparse(c)[:80]))
             if short in INPLACE_FUNCS and c.args:
